@@ -222,7 +222,7 @@ def c_change_basis(chk):
 
 def c_interpolate(chk):
     fn = "collisionArray.CollisionArray.interpolateCollisionArray"
-    for P in (1, 2):
+    for P in ((1, 2, 3) if chk.tier == "thorough" else (1, 2)):
         Ns, Nt = 5, 3
         ns, nt = Ns - 1, Nt - 1
         C0 = tensor(P, ns)
